@@ -4,7 +4,7 @@
    every answer that carries tunnel data, fresh or replayed. *)
 From Coq Require Import List NArith ZArith Arith Bool Lia.
 From RecordUpdate Require Import RecordUpdate.
-From Iodine Require Import Generated.SrcConsts Base Codec Hostname DnsName DnsMsg Domain Server ServerFrame ServerRefine.
+From Iodine Require Import Generated.SrcConsts Base Codec Hostname DnsName DnsMsg Domain Server ServerRings ServerRefine.
 Import ListNotations.
 Local Open Scope N_scope.
 
